@@ -155,7 +155,10 @@ class Body:
                 env[l] = v
         t = blk['term']
         if t['k'] == 'call' and not t['dest']['pr']:
-            env.pop(t['dest']['l'], None)
+            if t['dest']['l'] in bl:
+                env[t['dest']['l']] = ('d', b)
+            else:
+                env.pop(t['dest']['l'], None)
         succs = [tg for _, tg in self.edges(b)]
         origin = None
         if t['k'] == 'switch' and t['discr']['k'] in ('copy', 'move') and not t['discr']['p']['pr'] and t['discr']['p']['l'] in env:
